@@ -2,8 +2,9 @@
 model (Model/Visitor.lean), which Props/C09.lean proves equal to the bottom-up rewrite
 specification (Spec/Visitor.lean) and to satisfy the identity clauses of the statement.
 
-Visitor classes are generated with type() from a rule table (methods spread over a base and a
-derived visitor class, methods possibly only for base *node* classes, strict and non-strict).
+Visitor classes are generated with type() from a rule table (every visit_* method placed at random in
+the class body, an ASTVisitor base class, a plain rule mixin before/after the visitor base, attached to the
+class after creation, or attached to the instance; methods possibly only for base *node* classes, strict and non-strict).
 The output tree is compared structurally with identity tokens: objects that existed before the
 call print as `(old token)`, objects created by the call as `(new k …)` (numbered by first
 occurrence).  After every call (also when a method raised) every field of every input object
@@ -13,6 +14,7 @@ from __future__ import annotations
 import dataclasses
 import random
 import sys
+import types
 
 from pyoak.node import ASTNode
 from pyoak.visitor import ASTTransformVisitor, ASTVisitor
@@ -38,7 +40,9 @@ RULE = ("seeded zoo trees (single/optional/union/variadic/fixed-tuple child fiel
         "classes (Expr, Leaf, ASTNode, object) and own classes, spread over two visitor classes; scenario kinds: "
         "no-op, removal at first/middle/last tuple position, removal in optional and in required single fields, "
         "class-wide rules, a raise placed after earlier changes, random mixes; dispatch cases: every zoo class "
-        "(plus deeper subclass chains) x random method-name sets x strict; visitor CLASSES are re-used: one class per "
+        "(plus deeper subclass chains) x random method-name sets x strict; every visit_* method is placed at random in the class body / an "
+        "ASTVisitor base class / a plain rule mixin before or after the visitor base / attached to the class after "
+        "creation / attached to the instance (types.MethodType); visitor CLASSES are re-used: one class per "
         "method-name set (pooled across cases), `strict` / rule table per instance, instances with both strictness "
         "values run right after each other on the same tree in both orders (and the first again, for dispatch), "
         "so that results must not depend on what was visited before; 30% of the cases use a fresh class with a "
@@ -129,9 +133,47 @@ def perform(visitor, node, act):
     raise AssertionError(act)
 
 
+PLACES = ["own", "vbase", "mixin_before", "mixin_after", "class_late", "instance"]
+
+
+def build_visitor_class(methods: dict, root, shared_ns: dict, rng: random.Random, kw: dict, name: str = "V"):
+    """A visitor class whose `visit_*` functions (`methods`: attribute name -> function) live in every place
+    `getattr(visitor, name)` can find them: the class body, an ASTVisitor base class, a plain rule MIXIN (not
+    an ASTVisitor subclass) before / after the visitor base in the bases list, attached to the class after
+    its creation, attached to the instance (bound with types.MethodType; see `instantiate`).  `shared_ns`
+    (strict, __init__, generic_visit ...) goes to the visitor base or the class body."""
+    ns: dict = {p: {} for p in PLACES}
+    places = {}
+    for mname, fn in methods.items():
+        places[mname] = rng.choice(PLACES)
+        ns[places[mname]][mname] = fn
+    own, vb = dict(ns["own"]), dict(ns["vbase"])
+    for k, v in shared_ns.items():
+        (vb if rng.random() < 0.5 else own)[k] = v
+    vbase = type(name + "Base", (root,), vb, **kw)
+    bases: list = []
+    if ns["mixin_before"]:
+        bases.append(type("RulesA", (), ns["mixin_before"]))
+    bases.append(vbase)
+    if ns["mixin_after"]:
+        bases.append(type("RulesB", (), ns["mixin_after"]))
+    cls = type(name, tuple(bases), own, **kw)
+    for mname, fn in ns["class_late"].items():
+        setattr(cls, mname, fn)
+    cls._c09_instance_methods = dict(ns["instance"])
+    cls._c09_places = places
+    return cls
+
+
+def instantiate(cls, *args):
+    v = cls(*args)
+    for mname, fn in cls._c09_instance_methods.items():
+        setattr(v, mname, types.MethodType(fn, v))
+    return v
+
+
 def make_visitor(table: dict, strict: bool, toks: zoo.Tokens, rng: random.Random):
-    """table: class name -> (default act, {token: act}).  Methods are spread over a base and a
-    derived visitor class."""
+    """table: class name -> (default act, {token: act}).  Methods are placed by `build_visitor_class`."""
 
     def mk(cname, dflt, per):
         def method(self, node):
@@ -141,17 +183,12 @@ def make_visitor(table: dict, strict: bool, toks: zoo.Tokens, rng: random.Random
         method.__annotations__ = {"node": cname}
         return method
 
-    names = list(table)
-    rng.shuffle(names)
-    cut = rng.randint(0, len(names))
-    base_ns = {"visit_" + c: mk(c, *table[c]) for c in names[:cut]}
-    der_ns = {"visit_" + c: mk(c, *table[c]) for c in names[cut:]}
-    where = rng.random()
-    if strict or where < 0.5:
-        (base_ns if where < 0.5 else der_ns)["strict"] = strict
+    methods = {"visit_" + c: mk(c, *table[c]) for c in table}
+    shared = {}
+    if strict or rng.random() < 0.5:
+        shared["strict"] = strict
     kw = {"validate": True} if rng.random() < 0.3 else {}
-    base = type("VBase", (ASTTransformVisitor,), base_ns, **kw)
-    return type("V", (base,), der_ns, **kw)
+    return build_visitor_class(methods, ASTTransformVisitor, shared, rng, kw)
 
 
 # Visitor CLASSES reused across cases: a class is determined by the set of class names it has visit_
@@ -183,18 +220,13 @@ def pooled_visitor_class(names, rng: random.Random):
         self._table = table
         self._toks = toks
 
-    order = list(key)
-    rng.shuffle(order)
-    cut = rng.randint(0, len(order))
-    base_ns = {"visit_" + c: mk(c) for c in order[:cut]}
-    der_ns = {"visit_" + c: mk(c) for c in order[cut:]}
-    (base_ns if rng.random() < 0.5 else der_ns)["__init__"] = init
+    methods = {"visit_" + c: mk(c) for c in key}
+    shared = {"__init__": init}
     if rng.random() < 0.3:
         # a class-level default that every instance overrides
-        base_ns["strict"] = rng.random() < 0.5
+        shared["strict"] = rng.random() < 0.5
     kw = {"validate": True} if rng.random() < 0.3 else {}
-    base = type("PBase", (ASTTransformVisitor,), base_ns, **kw)
-    cls = type("P", (base,), der_ns, **kw)
+    cls = build_visitor_class(methods, ASTTransformVisitor, shared, rng, kw, name="P")
     _POOL[key] = cls
     return cls
 
@@ -428,13 +460,14 @@ def run_case(rng, root, extras, toks, orgs, tree_sx, extras_sx, ctr, table, stri
     if rng.random() < 0.3:
         # a fresh visitor class, strictness as a class attribute
         V = make_visitor(table, strict, toks, rng)
-        runs = [(strict, V, "class-attr")]
+        runs = [(strict, lambda: instantiate(V), "class-attr")]
     else:
         # a pooled (re-used) class; one instance per strictness, the generated one first, then the other
         P = pooled_visitor_class(table.keys(), rng)
-        runs = [(strict, lambda: P(strict, table, toks), "instance-attr"),
-                (not strict, lambda: P(not strict, table, toks), "instance-attr, same class right after "
+        runs = [(strict, lambda: instantiate(P, strict, table, toks), "instance-attr"),
+                (not strict, lambda: instantiate(P, not strict, table, toks), "instance-attr, same class right after "
                                                                   f"an instance with strict={strict}")]
+    placed = (V if len(runs) == 1 else P)._c09_places
     for st, make, how in runs:
         snap = snapshot(list(toks.objs))
         try:
@@ -446,7 +479,7 @@ def run_case(rng, root, extras, toks, orgs, tree_sx, extras_sx, ctr, table, stri
         bad = snapshot_ok(snap)
         line = dumps([A("transform"), zoo.class_table(), orgs.sexp(), [A("tree"), tree_sx], [A("extra")] + extras_sx,
                       [A("strict"), st], [A("ctr"), ctr], rules_sx])
-        desc = f"{zoo.show(root)} strict={st} ({how}) rules={rules_txt}"
+        desc = f"{zoo.show(root)} strict={st} ({how}) rules={rules_txt} methods-at={placed}"
         yield Case(scen, line, real, nontriv, desc, sig=f"transform|{scen.split('_')[0]}")
         if bad:
             yield Case("purity", None, None, nontriv, desc, oracle_fail=bad, sig="transform|input-modified")
@@ -495,9 +528,8 @@ def dispatch_cases(rng: random.Random, n_sets: int):
         if rng.random() < 0.5 and "Leaf" not in names:
             names.append(rng.choice(["Leaf", "Expr", "ASTNode", "object"]))
         names = list(dict.fromkeys(names))
-        ns = {"generic_visit": lambda self, node: "generic"}
-        for c in names:
-            ns["visit_" + c] = (lambda cc: lambda self, node: cc)(c)
+        shared = {"generic_visit": lambda self, node: "generic"}
+        methods = {"visit_" + c: (lambda cc: lambda self, node: cc)(c) for c in names}
         per_instance = rng.random() < 0.75
         if per_instance:
             # one visitor class, `strict` set per instance; the order of the strictness values alternates
@@ -505,23 +537,25 @@ def dispatch_cases(rng: random.Random, n_sets: int):
             def init(self, strict):
                 self.strict = strict
 
-            ns["__init__"] = init
-            V = type("DV", (ASTVisitor,), ns)
+            shared["__init__"] = init
+            V = build_visitor_class(methods, ASTVisitor, shared, rng, {}, name="DV")
             first = rng.random() < 0.5
-            plan = [(first, lambda st=first: V(st)), (not first, lambda st=not first: V(st)),
-                    (first, lambda st=first: V(st))]
+            plan = [(first, lambda st=first: instantiate(V, st)), (not first, lambda st=not first: instantiate(V, st)),
+                    (first, lambda st=first: instantiate(V, st))]
         else:
             plan = []
             for strict in (False, True):
-                ns2 = dict(ns)
+                sh2 = dict(shared)
                 if strict or rng.random() < 0.5:
-                    ns2["strict"] = strict
-                V2 = type("DV", (ASTVisitor,), ns2)
-                plan.append((strict, V2))
+                    sh2["strict"] = strict
+                V2 = build_visitor_class(methods, ASTVisitor, sh2, rng, {}, name="DV")
+                plan.append((strict, lambda V2=V2: instantiate(V2)))
         for step, (strict, make) in enumerate(plan):
             for cls, inst in insts:
+                vis = None
                 try:
-                    got = make().visit(inst)
+                    vis = make()
+                    got = vis.visit(inst)
                     real = dumps([A("ok"), A("generic") if got == "generic" else got])
                 except Exception:  # noqa
                     real = dumps([A("raise")])
@@ -530,7 +564,7 @@ def dispatch_cases(rng: random.Random, n_sets: int):
                 yield Case("dispatch_strict" if strict else "dispatch", line, real, bool(names),
                            f"visit({cls.__name__}()) strict={strict} "
                            f"({'instance attribute, step %d of %s' % (step, [p[0] for p in plan]) if per_instance else 'class attribute'}) "
-                           f"methods={['visit_' + c for c in names]}",
+                           f"methods-at={getattr(type(vis), '_c09_places', None)}",
                            sig=f"dispatch|strict={strict}")
 
 
